@@ -118,6 +118,21 @@ def suite_recv(ctx):
                 alone = np.array([complex(fields.get_receiver(
                     f, (xyz[0][q], xyz[1][q], xyz[2][q], az[q], el[q]),
                     method=method)) for q in range(m_)])
+            # sampling is linear in the field: fields of the size of CSEM data
+            with warnings.catch_warnings():
+                warnings.simplefilter('ignore')
+                f2 = emg3d.Field(grid, frequency=1.0)
+                f2.field[:] = f.field*2.0**-50
+                tiny = np.asarray(fields.get_receiver(
+                    f2, (*xyz, np.array(az), np.array(el)), method=method))
+            if not np.allclose(tiny, together*2.0**-50, rtol=1e-12, atol=0,
+                               equal_nan=True):
+                batch_bad.append(('scale', method, az, el))
+                ctx.violation(
+                    'receiver-not-linear',
+                    f'get_receiver({method}) of 2^-50 x field differs from '
+                    f'2^-50 x get_receiver(field)',
+                    {'azimuth': az, 'elevation': el, 'method': method})
             if together.shape != alone.shape or not np.allclose(
                     together, alone, rtol=1e-12, atol=1e-13, equal_nan=True):
                 batch_bad.append((method, az, el))
